@@ -141,7 +141,7 @@ def _tree_job(args):
     out = dict(n=0, nontrivial=0, stats={}, violations=[], disagreements=[], pairs=[], samples=[], known=[])
     for it in range(n):
         root, dirs, files = scan.gen_tree(rng, max_depth=4)
-        scan.gen_imports(rng, dirs, files, externals=scan.EXTERNALS if it % 3 == 1 else (), nested=False)
+        scan.gen_imports(rng, dirs, files, externals=scan.EXTERNALS if it % 3 == 1 else (), nested=True)
         # a few file names with regex metacharacters that are legal in file names (never import targets)
         for d in list(dirs):
             if rng.random() < 0.25:
@@ -184,7 +184,16 @@ def _tree_job(args):
                                   ".*/" + esc(nm) + "$", "(?:.*/)?" + esc(stem) + r"(?:\.py)?$", ".*/" + esc(stem) + "/"]
                     rxs = tuple(rng.sample(raw_shapes, rng.randint(1, 2)))
                 kw = dict(exclusions=(), regex_exclusions=rxs) if use_regex else dict(exclusions=globs)
+                regex_only = use_regex and rng.random() < 0.3
+                if regex_only:
+                    # regex_exclusions given while `exclusions` is left at its default: the library may refuse the combination
+                    # (the two options are documented as mutually exclusive) - but if it answers, the regexes must have been applied
+                    kw = dict(regex_exclusions=rxs)
                 flt = scan.real_scan(base, root, mp, **kw, **extkw)
+                if regex_only and flt[0] == "ERR" and flt[1].startswith("ImproperlyConfigured"):
+                    out["stats"]["regex_exclusions_with_default_exclusions_refused"] = out["stats"].get("regex_exclusions_with_default_exclusions_refused", 0) + 1
+                    out["n"] += 1
+                    continue
                 if keep_ext and flt[0] == "OK":
                     flt = (flt[0], [m for m in flt[1] if inner(m)], [(a, b) for a, b in flt[2] if inner(a) and inner(b)], flt[3])
                 out["n"] += 1
@@ -218,7 +227,7 @@ def _tree_job(args):
                 k2 = []
                 for (u, P) in list(surplus):
                     # K2: 'from P import n' in u where P.n is excluded names P in the filtered scan only
-                    body = files.get(tuple(u.split(".")), {}).get("body", [])
+                    body = scan.import_statements(files.get(tuple(u.split(".")), {}).get("body", []))
                     def explains(s):
                         if s[0] != "from":
                             return False
